@@ -198,6 +198,33 @@ CHECKS["C18"] = dict(
          "dispatch traits hold over the listed type family.",
     design_ref="DESIGN.md section 4, C18", note="Not decided: hex-dump digits and line breaks for every size.")
 
+CHECKS["C14"] = dict(
+    technique="census of pointer/reference members against a borrow table with per-kind structural rules (detach in "
+              "the referent's destructor, guarded use), new-reaches-owner data-flow, who-may-delete, loop-order checks, "
+              "suspension-point analysis of library coroutines, abstract interpretation of the list primitives over "
+              "canonical ring shapes (SHAPE)",
+    text="Every pointer-like member of every library class is classified (unclassified = analysis broken) and its kind's "
+         "rule holds: nodes unlink in their destructor on every path, handles are contained in their handler, the "
+         "monitor/object borrows are detached and guarded; every new reaches an owning sink first; only the disposer "
+         "deletes; destroying loops advance before disposing; unlink, push_front, push_back and node move-assignment "
+         "yield a well-formed ring with the specified order on every canonical ring shape. Three borrows violate "
+         "their rule on the pinned tree and are recorded as known findings (sequence handle -> sequence object, tracer "
+         "-> previous tracer, handler coroutine's parameter reference).",
+    design_ref="DESIGN.md section 4, C14",
+    note="Decides the listed structural necessary conditions, not memory safety of every history as a whole.")
+CHECKS["C20"] = dict(
+    technique="CFG structure of the handler coroutine (yield loop, single co_return), shared-list data-flow of the "
+              "CO_ clause handlers, same-dispatch census, compile-time trait and clause-order witnesses",
+    text="Coroutine-returning mock functions use the one generic dispatch (so all call-time obligations of C01-C08, C16, "
+         "C17 are evaluated on them too); the handler coroutine yields each element of its own yield list in list order "
+         "with no early exit and then co_returns the return expression exactly once, evaluating clauses inside the "
+         "coroutine body; CO_YIELD appends to, and CO_RETURN/CO_THROW share, the expectation's single yield list for "
+         "every clause order; detection traits hold for eager/lazy tasks, operator co_await tasks and generators; all "
+         "legal clause permutations compile and misuse is rejected with the documented text.",
+    design_ref="DESIGN.md section 4, C20",
+    note="Suspension/resumption and where exceptions surface are language semantics; parameter lifetime across "
+         "suspension is a known finding.")
+
 NOT_APPLICABLE = {}
 
 
